@@ -50,6 +50,10 @@ AuxHashMap<A>* AuxHashMap<A>::deserialize(const void* bytes, size_t len,
                                           uint8_t lgConfigK,
                                           uint32_t auxCount, uint8_t lgAuxArrInts,
                                           bool srcCompact, const A& allocator) {
+  // at most one exception per slot, and the table only doubles while it is more than 3/4 full
+  if (auxCount > (1u << lgConfigK) || (!srcCompact && lgAuxArrInts > lgConfigK + 1)) {
+    throw std::invalid_argument("AuxHashMap size in sketch image exceeds the number of slots");
+  }
   uint8_t lgArrInts = lgAuxArrInts;
   if (srcCompact) { // early compact versions didn't use LgArr byte field so ignore input
     lgArrInts = HllUtil<A>::computeLgArrInts(HLL, auxCount, lgConfigK);
@@ -99,6 +103,10 @@ template<typename A>
 AuxHashMap<A>* AuxHashMap<A>::deserialize(std::istream& is, uint8_t lgConfigK,
                                           uint32_t auxCount, uint8_t lgAuxArrInts,
                                           bool srcCompact, const A& allocator) {
+  // at most one exception per slot, and the table only doubles while it is more than 3/4 full
+  if (auxCount > (1u << lgConfigK) || (!srcCompact && lgAuxArrInts > lgConfigK + 1)) {
+    throw std::invalid_argument("AuxHashMap size in sketch image exceeds the number of slots");
+  }
   uint8_t lgArrInts = lgAuxArrInts;
   if (srcCompact) { // early compact versions didn't use LgArr byte field so ignore input
     lgArrInts = HllUtil<A>::computeLgArrInts(HLL, auxCount, lgConfigK);
